@@ -3,12 +3,17 @@ package checks
 import (
 	"bytes"
 	"crypto"
+	_ "crypto/md5"
+	_ "crypto/sha1"
+	_ "crypto/sha256"
 	"crypto/sha512"
 	"fmt"
 	"math"
 	"strings"
 
 	"github.com/google/go-tdx-guest/rtmr"
+	_ "golang.org/x/crypto/blake2b"
+	_ "golang.org/x/crypto/sha3"
 
 	"verifharness/mc"
 	"verifharness/world"
@@ -29,6 +34,19 @@ type c17op struct {
 	call   func(t *world.TSM) error
 }
 
+// c17Hashes: SHA-384 first (the valid one), then every other crypto.Hash identifier including the
+// other algorithms with a 48-byte output (SHA3-384, BLAKE2b-384, linked into the harness on purpose)
+// and out-of-range identifiers.
+func c17Hashes() []crypto.Hash {
+	out := []crypto.Hash{crypto.SHA384}
+	for h := crypto.Hash(0); h <= 21; h++ {
+		if h != crypto.SHA384 {
+			out = append(out, h)
+		}
+	}
+	return append(out, 255)
+}
+
 func c17Alphabet() []c17op {
 	var ops []c17op
 	a := world.Fill("digest-A", 64)
@@ -43,7 +61,7 @@ func c17Alphabet() []c17op {
 		}
 	}
 	for _, idx := range []int{-1, 0, 1, 2, 3, 4} {
-		for _, h := range []crypto.Hash{crypto.SHA384, crypto.SHA256, crypto.SHA512, 0} {
+		for _, h := range c17Hashes() {
 			for _, lg := range []string{"", "event-x", "event-y"} {
 				idx, h, lg := idx, h, lg
 				sum := sha512.Sum384([]byte(lg))
